@@ -4,6 +4,7 @@ CONSTANTS
   EnvSet <- MCEnvSet
   ArgvSet <- MCArgvSet
   MaxParses = 1
+  EnvChanges = FALSE
   Vals <- MCVals
   MaxMulti = 2
   MaxPos = 2
